@@ -1,7 +1,7 @@
 #!/usr/bin/env python3
 """Measure the instance counts of every rule in every configuration on the CURRENT /repo tree
 and write tables/floors.json. Run by hand on the pinned (repaired) tree only; checks never write it.
-floor = measured count for counts <= 5, otherwise measured - max(1, measured // 10)."""
+floor = measured count when it is 0/1, otherwise ceil(measured / 2)."""
 import json, os, sys, importlib
 V = os.path.dirname(os.path.dirname(os.path.abspath(__file__)))
 sys.path.insert(0, os.path.join(V, "engine"))
@@ -25,7 +25,9 @@ for cfg in extract.THOROUGH:
             if what not in getattr(r, "floor_keys", set()):
                 continue
             measured.setdefault(rule, {}).setdefault(what, {})[cfg] = got
-            fl = got if got <= 5 else got - max(1, got // 10)
+            # not-vacuous floors: a rule must still see at least half of what was confirmed on the pinned tree
+            # (an anchor with a single instance must keep it); this tolerates refactors that merge or remove a few sites
+            fl = got if got <= 1 else (got + 1) // 2
             out.setdefault(rule, {}).setdefault(what, {})[cfg] = fl
 json.dump(out, open(os.path.join(V, "tables", "floors.json"), "w"), indent=1, sort_keys=True)
 json.dump(measured, open(os.path.join(V, "tables", "floors_measured.json"), "w"), indent=1, sort_keys=True)
